@@ -262,6 +262,8 @@ def b_zip(ip, *its):
 def b_list(ip, it=None):
     if it is None:
         return PyList()
+    if hasattr(it, 'pv_list'):
+        return it.pv_list(ip)
     if isinstance(it, SymMap):
         return symmap_keys(ip, it)
     if isinstance(it, SymSeq):
@@ -314,6 +316,8 @@ def b_any(ip, it):
 def b_set(ip, it=None):
     if it is None:
         return PySet()
+    if hasattr(it, 'pv_set'):
+        return it.pv_set(ip)
     return make_set(ip, ip.iter_concrete(it))
 
 
@@ -610,6 +614,8 @@ def find_key(ip, d, k):
 
 
 def contains(ip, container, item):
+    if hasattr(container, 'pv_contains'):
+        return container.pv_contains(ip, item)
     if isinstance(container, (PyList, tuple, PySet)):
         items = container.items if not isinstance(container, tuple) else container
         r = False
@@ -673,6 +679,8 @@ def key_compatible(item, kind):
 
 def getitem(ip, v, k):
     ctx = ip.ctx
+    if hasattr(v, 'pv_getitem'):
+        return v.pv_getitem(ip, k)
     if isinstance(v, PyList):
         if isinstance(k, slice):
             a = ops.const_int(k.start) if k.start is not None else None
@@ -1286,7 +1294,7 @@ def m_bytes_join(ip, sep, it):
 
 
 def m_bytes_split(ip, b, sep=None, maxsplit=-1):
-    hk = ip.hooks.get('bytes.split')
+    hk = ip.hooks.get('str.split' if ops.pytype(b) == 'str' else 'bytes.split')
     if hk is not None:
         return hk(ip, b, sep, maxsplit)
     if isinstance(b, (bytes, str)) and isinstance(sep, (bytes, str, type(None))):
